@@ -42,6 +42,9 @@ func c15Gen(t *rapid.T) any {
 			op.Op, op.Proto = "starttest", oneOf(t, "proto", []string{"netrpc", "grpc"})
 		case 2:
 			op.Op = "reattach"
+			if rapid.Bool().Draw(t, "chain") {
+				op.Val = "chain" // use the ReattachConfig() of an existing client instead of the original one
+			}
 		case 3:
 			op.Op, op.Key, op.Val = "set", oneOf(t, "key", []string{"a", "b", "c"}), rapid.StringMatching(`[a-z0-9]{0,6}`).Draw(t, "val")
 		case 4:
@@ -98,11 +101,14 @@ func c15Run(ci any) (out Outcome) {
 		return HostCfg{LegacyVersion: 1, Legacy: &set, Allowed: []string{"netrpc", "grpc"}}.clientConfig()
 	}
 	reattachCount := map[int]int{}
-	sawDead, sawTest := false, false
+	sawDead, sawTest, chained := false, false, false
 
-	attach := func(in *c15Inst) (*c15Client, error) {
+	attach := func(in *c15Inst, from *plugin.ReattachConfig) (*c15Client, error) {
 		cc := hostCfg()
-		rc := *in.rc
+		if from == nil {
+			from = in.rc
+		}
+		rc := *from
 		cc.Reattach = &rc
 		cl := plugin.NewClient(cc)
 		h, _, err := dispense(cl, "p")
@@ -178,9 +184,24 @@ func c15Run(ci any) (out Outcome) {
 			if in == nil || !in.alive {
 				continue
 			}
-			k, err := attach(in)
+			var from *plugin.ReattachConfig
+			if op.Val == "chain" && len(in.clients) > 0 {
+				// the configuration a client reports must be as good as the one it was built from
+				src := in.clients[op.Cl%len(in.clients)]
+				from = src.cl.ReattachConfig()
+				if from == nil {
+					out.violate("step %d: ReattachConfig() of a live client (reattached=%v) is nil", step, src.reattached)
+					return
+				}
+				if from.Test != in.test {
+					out.violate("step %d: ReattachConfig() of a client (reattached=%v) of a %s plugin has Test=%v, the plugin's own configuration has Test=%v", step, src.reattached, in.proto, from.Test, in.test)
+					return
+				}
+				chained = true
+			}
+			k, err := attach(in, from)
 			if err != nil {
-				out.violate("step %d: reattach to live %s plugin (test mode %v) failed: %v", step, in.proto, in.test, err)
+				out.violate("step %d: reattach to live %s plugin (test mode %v, chained %v) failed: %v", step, in.proto, in.test, from != nil, err)
 				return
 			}
 			if string(k.cl.Protocol()) != in.proto {
@@ -228,7 +249,7 @@ func c15Run(ci any) (out Outcome) {
 			in.clients = append(in.clients[:idx], in.clients[idx+1:]...)
 			if in.test {
 				// test mode: the serving side must keep running and accept a new reattach
-				k2, err := attach(in)
+				k2, err := attach(in, nil)
 				if err != nil {
 					out.violate("step %d: after Kill on a test-mode client the server no longer answers a reattach: %v", step, err)
 					return
@@ -314,6 +335,9 @@ func c15Run(ci any) (out Outcome) {
 	}
 	if sawTest {
 		out.label("test-mode")
+	}
+	if chained {
+		out.label("chained-reattach")
 	}
 	return
 }
